@@ -952,6 +952,12 @@ pub struct EvalOpts {
     /// second stage on the entries of a quantified group)
     pub shake: bool,
     pub matrix: bool,
+    /// resolve the undocumented zones the way the engine does today (wrong kind under a search:
+    /// missing; under a comparison: false; cross-kind numbers: false; int() rounds half away from
+    /// zero; which of false / missing a non-true quantifier yields). Only used by C01 to attribute a
+    /// mismatch to K1/K2: the question there is what the *unoptimised engine* would give under a
+    /// reordering, not what the documentation admits.
+    pub engine_exact: bool,
 }
 
 pub struct Evaluator<'a> {
@@ -1046,6 +1052,90 @@ fn enumerate(ops: &[RSet], f: &mut dyn FnMut(&[RSet])) {
 
 /// Quantifier over member result sets. `definitely_missing[i]` tells whether member i is {M}
 /// because the field is absent (as opposed to a wrong-kind choice).
+/// How the engine holds the operands of a quantifier: a group it loops over, a single expression,
+/// or one batch (automaton / regex set) that counts its own members.
+#[derive(Clone, Copy, PartialEq)]
+enum QuantShape {
+    Group,
+    Single,
+    Batch,
+}
+
+fn set_quant_exact(q: &KeyMod, ops: &[RSet], shape: QuantShape) -> Option<RSet> {
+    if !ops.iter().all(|s| s.count_ones() == 1) {
+        return None;
+    }
+    let t = ops.iter().filter(|s| **s == T).count() as u64;
+    let f = ops.iter().filter(|s| **s == F).count() as u64;
+    let m = ops.iter().filter(|s| **s == M).count() as u64;
+    Some(match q {
+        KeyMod::All => {
+            if t == ops.len() as u64 {
+                T
+            } else if f > 0 && m > 0 {
+                // the first non-true entry in the engine's own entry order decides
+                FM
+            } else if f > 0 {
+                F
+            } else {
+                M
+            }
+        }
+        KeyMod::Of(0) => {
+            if t > 0 {
+                F
+            } else if f > 0 {
+                T
+            } else {
+                M
+            }
+        }
+        KeyMod::Of(n) => {
+            if t >= *n {
+                T
+            } else if f > 0 {
+                F
+            } else if t > 0 && shape != QuantShape::Group {
+                // true operands that do not reach the count: a single expression or a batch answers
+                // false, a group answers with what it saw besides (nothing: missing)
+                F
+            } else {
+                M
+            }
+        }
+        _ => return None,
+    })
+}
+
+/// Does a key list end up as one batch in the solver (see k3_shape for the grouping)?
+fn list_shape(members: &[RVal]) -> QuantShape {
+    if members.len() == 1 {
+        return QuantShape::Single;
+    }
+    let mut kinds = std::collections::BTreeSet::new();
+    let mut singles = 0;
+    for m in members {
+        match m {
+            RVal::Pat(p) => match &p.pat {
+                Pat::Regex(_) => {
+                    kinds.insert(if p.ci { "iregex" } else { "regex" });
+                }
+                Pat::Exact(x) if x.is_empty() => singles += 1,
+                Pat::Exact(_) | Pat::Prefix(_) | Pat::Suffix(_) | Pat::Contains(_) => {
+                    kinds.insert(if p.ci { "ineedle" } else { "needle" });
+                }
+                Pat::Any | Pat::Num(_, _) => singles += 1,
+            },
+            _ => singles += 1,
+        }
+    }
+    if singles == 0 && kinds.len() == 1 {
+        QuantShape::Batch
+    } else {
+        QuantShape::Group
+    }
+}
+
 fn set_quant(q: &KeyMod, ops: &[RSet]) -> RSet {
     if ops.len() > 8 {
         // avoid 3^n blow-up; decide on bounds
@@ -1276,6 +1366,15 @@ impl<'a> Evaluator<'a> {
         self.njr("other")
     }
 
+    /// An undocumented zone: false-or-missing by the documentation, `engine` in engine_exact mode.
+    fn zone(&self, engine: RSet) -> RSet {
+        if self.opts.engine_exact {
+            engine
+        } else {
+            FM
+        }
+    }
+
     fn njr(&self, why: &'static str) -> RSet {
         self.not_judged.set(self.not_judged.get() + 1);
         *self.reasons.borrow_mut().entry(why).or_insert(0) += 1;
@@ -1423,6 +1522,15 @@ impl<'a> Evaluator<'a> {
                 b.0.iter().map(|e| self.eval_entry(e, doc)).collect()
             }
         };
+        if self.opts.engine_exact {
+            let shape = match id {
+                RIdent::Map(b) if b.0.len() == 1 => QuantShape::Single,
+                _ => QuantShape::Group,
+            };
+            if let Some(r) = set_quant_exact(q, &ops, shape) {
+                return r;
+            }
+        }
         set_quant(q, &ops)
     }
 
@@ -1475,6 +1583,11 @@ impl<'a> Evaluator<'a> {
                 }
                 let ops: Vec<RSet> =
                     ms.iter().map(|m| self.eval_member(&KeyMod::None, m, v, true)).collect();
+                if self.opts.engine_exact {
+                    if let Some(r) = set_quant_exact(&e.modifier, &ops, list_shape(ms)) {
+                        return r;
+                    }
+                }
                 set_quant(&e.modifier, &ops)
             }
             m => match &e.val {
@@ -1520,7 +1633,7 @@ impl<'a> Evaluator<'a> {
                         }
                     }
                     if !any_obj {
-                        return FM;
+                        return self.zone(F);
                     }
                     let mut out = 0;
                     if can_t {
@@ -1531,7 +1644,7 @@ impl<'a> Evaluator<'a> {
                     }
                     out
                 }
-                _ => FM,
+                _ => self.zone(F),
             },
             (_, RVal::Block(_)) => self.nj(),
             // ---- null
@@ -1540,7 +1653,7 @@ impl<'a> Evaluator<'a> {
             // ---- booleans
             (KeyMod::None, RVal::BoolC(b)) => match v {
                 DocVal::Bool(x) => bool_set(x == b),
-                _ => FM,
+                _ => self.zone(F),
             },
             (KeyMod::Int, RVal::BoolC(b)) => self.cmp_cast_int(v, NumOp::Eq, Num::I(*b as i128)),
             (KeyMod::Str, RVal::BoolC(b)) => self.str_test(
@@ -1608,12 +1721,12 @@ impl<'a> Evaluator<'a> {
                 if any_text {
                     F
                 } else {
-                    FM
+                    self.zone(F)
                 }
             }
             other => match scalar_text(other) {
                 Some(t) => bool_set(test_string(p, &t)),
-                None => FM,
+                None => self.zone(M),
             },
         }
     }
@@ -1622,7 +1735,7 @@ impl<'a> Evaluator<'a> {
     fn cmp_plain(&self, v: &DocVal, op: NumOp, c: Num) -> RSet {
         let x = match as_num(v) {
             Some(x) => x,
-            None => return FM,
+            None => return self.zone(F),
         };
         let exact = bool_set(cmp_exact(x, op, c));
         let same_kind = match (v, c) {
@@ -1633,6 +1746,8 @@ impl<'a> Evaluator<'a> {
         };
         if same_kind {
             exact
+        } else if self.opts.engine_exact {
+            F
         } else {
             exact | F
         }
@@ -1641,22 +1756,53 @@ impl<'a> Evaluator<'a> {
     fn cmp_cast_int(&self, v: &DocVal, op: NumOp, c: Num) -> RSet {
         match conv_int(v) {
             Conv::Ok(x) => bool_set(cmp_exact(x, op, c)),
-            Conv::Big(x) => bool_set(cmp_exact(x, op, c)) | FM,
-            Conv::Either(a, b) => bool_set(cmp_exact(a, op, c)) | bool_set(cmp_exact(b, op, c)),
-            Conv::No => FM,
+            Conv::Big(x) => {
+                if self.opts.engine_exact {
+                    F
+                } else {
+                    bool_set(cmp_exact(x, op, c)) | FM
+                }
+            }
+            Conv::Either(a, b) => {
+                if self.opts.engine_exact {
+                    bool_set(cmp_exact(self.rounded(v, a, b), op, c))
+                } else {
+                    bool_set(cmp_exact(a, op, c)) | bool_set(cmp_exact(b, op, c))
+                }
+            }
+            Conv::No => self.zone(F),
             Conv::NotJudged => self.nj(),
+        }
+    }
+
+    /// round half away from zero, as `f64::round` does
+    fn rounded(&self, v: &DocVal, floor: Num, ceil: Num) -> Num {
+        match v {
+            DocVal::Float(f) => {
+                if f.round() == f.floor() {
+                    floor
+                } else {
+                    ceil
+                }
+            }
+            _ => floor,
         }
     }
 
     fn cmp_cast_flt(&self, v: &DocVal, op: NumOp, c: f64) -> RSet {
         match conv_flt(v) {
             Conv::Ok(x) => bool_set(cmp_exact(x, op, Num::F(c))),
-            Conv::No => FM,
+            Conv::No => self.zone(F),
             _ => self.nj(),
         }
     }
 
     fn eval_cmp(&self, a: &Operand, op: NumOp, b: &Operand, doc: &DObj) -> RSet {
+        if self.opts.engine_exact {
+            if let Some(r) = self.eval_cmp_exact(a, op, b, doc) {
+                return r;
+            }
+        }
         // string equality of two fields
         if let (Operand::Cast(CastKind::Str, fa), Operand::Cast(CastKind::Str, fb)) = (a, b) {
             let (va, vb) = match (self.lookup(doc, fa), self.lookup(doc, fb)) {
@@ -1740,6 +1886,51 @@ impl<'a> Evaluator<'a> {
                 }
             },
         }
+    }
+}
+
+impl<'a> Evaluator<'a> {
+    /// The engine inspects the left operand first, then the right one: absent => missing,
+    /// unconvertible => false.
+    fn eval_cmp_exact(&self, a: &Operand, op: NumOp, b: &Operand, doc: &DObj) -> Option<RSet> {
+        let is_str = matches!((a, b), (Operand::Cast(CastKind::Str, _), Operand::Cast(CastKind::Str, _)));
+        let mut nums = vec![];
+        let mut texts = vec![];
+        for o in [a, b] {
+            match o {
+                Operand::Int(i) => nums.push(Num::I(*i as i128)),
+                Operand::Float(f) => nums.push(Num::F(*f)),
+                Operand::Cast(k, f) => {
+                    let v = match self.lookup(doc, f) {
+                        Ok(Some(v)) => v,
+                        Ok(None) => return Some(M),
+                        Err(()) => return None,
+                    };
+                    if is_str {
+                        match conv_str(v) {
+                            Some(t) => texts.push(t),
+                            None => return Some(F),
+                        }
+                    } else {
+                        let c = match k {
+                            CastKind::Int => conv_int(v),
+                            CastKind::Flt => conv_flt(v),
+                            CastKind::Str => return None,
+                        };
+                        match c {
+                            Conv::Ok(x) => nums.push(x),
+                            Conv::Either(lo, hi) => nums.push(self.rounded(v, lo, hi)),
+                            Conv::No | Conv::Big(_) => return Some(F),
+                            Conv::NotJudged => return None,
+                        }
+                    }
+                }
+            }
+        }
+        if is_str {
+            return Some(bool_set(texts[0] == texts[1]));
+        }
+        Some(bool_set(cmp_exact(nums[0], op, nums[1])))
     }
 }
 
